@@ -976,6 +976,9 @@ func (ix *idxProver) guardGe0(v ssa.Value, at *ssa.BasicBlock) bool { return ix.
 
 // le proves v + c ≤ B at block at.
 func (ix *idxProver) le(v ssa.Value, c int, B bterm, at *ssa.BasicBlock, seen map[string]bool) bool {
+	if c > 64 || c < -64 || len(seen) > 5000 {
+		return false // a counter chased round its own loop: no proof this way
+	}
 	k := fmt.Sprintf("%p+%d<=%s", v, c, B.key())
 	if seen[k] {
 		return true // inductive hypothesis for loop-carried values
